@@ -153,3 +153,8 @@ func verifReadMergeDeterministic(n JsonNode) bool {
 	}
 	return true
 }
+
+// verifEquals is a.Equals(b, options...).
+func verifEquals(a, b JsonNode, options []Option) bool {
+	return a.Equals(b, options...)
+}
